@@ -12,6 +12,7 @@ import zlib
 from common import (Check, coq_eval, coq_str, coq_bool, coq_opt, coq_bytes, impl_run, impl_run_parallel,
                     REPO, NPROC)
 import gen
+import coqmulti
 from c01 import FULL_CONFIG
 
 SIZES = [0, 1, 4095, 4096, 4097, 8191, 8192, 8193, 12287, 12288, 12289]
@@ -500,106 +501,130 @@ def run(tier):
 
     tick("oracle")
     # ---- K: the same responses against the model, inside Coq ----
-    tpre = {"default": tables_pre(tables), "full": tables_pre(tables_full)}
-    shards = {}       # (cfg, path) -> list of records
+    IMPORTS = "Lib.Str Model.Copy Model.Wml Model.Mime Corr.K04"
+    kerrs = []
+    for cfgname, t in (("default", tables), ("full", tables_full)):
+        err = coqmulti.compile_module("C04", f"C04T_{cfgname}", "Lib.Str", tables_pre(t))
+        if err:
+            kerrs.append(err)
+    byfile = {}       # (cfg, path) -> list of records
     for r in records:
-        shards.setdefault((r["cfg"], r["path"]), []).append(r)
+        byfile.setdefault((r["cfg"], r["path"]), []).append(r)
 
-    def hkind(r):
+    def hkind(r, tag):
         sp = r["special"] if r["cfg"] == "full" else None
         if sp is None:
             return "HFile"
         if sp[0] == "gz":
-            return "(HCompressed [%s] plain)" % coq_str("gzip")
-        return "(HTal hout)"
-
-    def build_shard(key, recs):
-        cfgname, path = key
-        r0 = recs[0]
-        sp = r0["special"] if cfgname == "full" else None
-        pre = tpre[cfgname]
-        isbig = len(r0["data"]) > 20000
-        if isbig:
-            pre += coq_def("blk", blk) + "Definition d0 : list N := big_doc blk %d %d.\n" % (BIG_REPS, BIG_TAIL)
-        else:
-            pre += coq_def("d0", r0["data"])
-        if sp and sp[0] == "gz":
-            pre += coq_def("plain", sp[1])
-        if sp and sp[0] == "tal":
-            pre += coq_def("hout", handler_out.get((cfgname, path), b""))
-        groups = {"doc": [], "docp": [], "dig": [], "wapt": [], "wapr": []}
-        idx = {"doc": [], "docp": [], "dig": [], "wapt": [], "wapr": []}
-        for i, r in enumerate(recs):
-            out = gen.mask_times(r["out"])
-            sel = coq_str(r["sel"])
-            if r["proto"] == "wap":
-                meth = r["meth"]
-                t = expected_type(sel_guess[r["sel"]], tables["default_mimetype"],
-                                  decomp if sp and sp[0] == "gz" else None, tal=bool(sp and sp[0] == "tal"))
-                if t is None or t == "text/plain":
-                    src = r["data"] if sp is None else (sp[1] if sp[0] == "gz" else handler_out.get((cfgname, path), b""))
-                    pre += coq_defs(f"x{i}", src.decode("utf-8", "surrogateescape"))
-                    pre += coq_defs(f"r{i}", out.decode("utf-8", "surrogateescape"))
-                    groups["wapt"].append(f"((({meth}, {hkind(r)}), {sel}), (x{i}, r{i}))")
-                    idx["wapt"].append(i)
-                elif isbig:
-                    continue
-                else:
-                    pre += coq_def(f"r{i}", out)
-                    groups["wapr"].append(f"((({meth}, {hkind(r)}), {sel}), (d0, r{i}))")
-                    idx["wapr"].append(i)
-                continue
-            bp = BPROTO[r["proto"]] if r["meth"] == "GET" else "(PHttp HEAD)"
-            if isbig:
-                v = zlib.adler32(out)
-                groups["dig"].append(f"((({bp}, HFile), {sel}), (d0, ({len(out)}, ({v & 0xffff}, {v >> 16}))))")
-                idx["dig"].append(i)
-            else:
-                pre += coq_def(f"r{i}", out)
-                groups["doc"].append(f"((({bp}, {hkind(r)}), {sel}), (d0, r{i}))")
-                idx["doc"].append(i)
-        return pre, groups, idx
+            return "(HCompressed [%s] plain_%s)" % (coq_str("gzip"), tag)
+        return "(HTal hout_%s)" % tag
 
     CHK = {"doc": f"chk_doc {TARGS} false", "docp": f"chk_doc {TARGS} true", "dig": f"chk_doc_digest {TARGS}",
            "wapt": f"chk_wap_text {TARGS}", "wapr": f"chk_wap_raw {TARGS}"}
 
-    def eval_shard(item):
-        n, (key, recs) = item
-        pre, groups, idx = build_shard(key, recs)
-        bad = []
-        errs = []
-        nsh = 0
-        for g, cases in groups.items():
-            if not cases:
-                continue
-            mm, ee, ns = coq_eval("C04", f"k_doc_{n}_{g}", "Lib.Str Model.Copy Model.Wml Model.Mime Corr.K04", CHK[g], cases,
-                                  shard=10 ** 9, pre=pre, timeout=900)
-            nsh += ns
-            if ee:
-                errs.append(ee)
-            badrecs = [recs[idx[g][i]] for i in mm]
-            if g == "doc" and badrecs:
-                # is it exactly the pinned size attribute of a transforming handler?
-                sub = [cases[i] for i in mm]
-                mm2, ee2, _ = coq_eval("C04", f"k_doc_{n}_pinned", "Lib.Str Model.Copy Model.Wml Model.Mime Corr.K04",
-                                       CHK["docp"], sub, shard=10 ** 9, pre=pre, timeout=900)
-                if ee2:
-                    errs.append(ee2)
-                still = set(mm2)
-                for j, rr in enumerate(badrecs):
-                    bad.append((rr, "pinned-size" if j not in still else "other"))
+    def file_part(fi, key, recs):
+        """definitions and cases for one file; returns (defs text, weight, {group: [(case, record)]})"""
+        cfgname, path = key
+        tag = f"f{fi}"
+        r0 = recs[0]
+        sp = r0["special"] if cfgname == "full" else None
+        defs = [coq_def(f"d_{tag}", r0["data"])]
+        weight = len(r0["data"])
+        if sp and sp[0] == "gz":
+            defs.append(coq_def(f"plain_{tag}", sp[1]))
+            weight += len(sp[1])
+        if sp and sp[0] == "tal":
+            defs.append(coq_def(f"hout_{tag}", handler_out.get((cfgname, path), b"")))
+        groups = {"doc": [], "wapt": [], "wapr": []}
+        seen = {}
+        for i, r in enumerate(recs):
+            out = gen.mask_times(r["out"])
+            sel = coq_str(r["sel"])
+            if r["proto"] == "wap":
+                t = expected_type(sel_guess[r["sel"]], tables["default_mimetype"],
+                                  decomp if sp and sp[0] == "gz" else None, tal=bool(sp and sp[0] == "tal"))
+                if t is None or t == "text/plain":
+                    src = r["data"] if sp is None else (sp[1] if sp[0] == "gz" else handler_out.get((cfgname, path), b""))
+                    if ("x",) not in seen:
+                        seen[("x",)] = f"x_{tag}"
+                        defs.append(coq_defs(f"x_{tag}", src.decode("utf-8", "surrogateescape")))
+                        weight += len(src)
+                    defs.append(coq_defs(f"r_{tag}_{i}", out.decode("utf-8", "surrogateescape")))
+                    weight += len(out)
+                    groups["wapt"].append((f"((({r['meth']}, {hkind(r, tag)}), {sel}), (x_{tag}, r_{tag}_{i}))", r))
+                    continue
+                g = "wapr"
+                lit = f"((({r['meth']}, {hkind(r, tag)}), {sel}), (d_{tag}, %s))"
             else:
-                bad += [(rr, "other") for rr in badrecs]
-        return bad, errs, nsh
+                g = "doc"
+                bp = BPROTO[r["proto"]] if r["meth"] == "GET" else "(PHttp HEAD)"
+                lit = f"((({bp}, {hkind(r, tag)}), {sel}), (d_{tag}, %s))"
+            if out not in seen:                     # TLS twins answer with the same bytes
+                seen[out] = f"r_{tag}_{i}"
+                defs.append(coq_def(f"r_{tag}_{i}", out))
+                weight += len(out)
+            groups[g].append((lit % seen[out], r))
+        return "".join(defs), weight, groups
 
-    with concurrent.futures.ThreadPoolExecutor(max_workers=NPROC) as ex:
-        outs = list(ex.map(eval_shard, enumerate(sorted(shards.items(), key=lambda kv: -len(kv[1][0]["data"])))))
+    parts = []
+    bigrecs = []
+    for fi, (key, recs) in enumerate(sorted(byfile.items(), key=lambda kv: -len(kv[1][0]["data"]))):
+        if len(recs[0]["data"]) > 20000:
+            bigrecs += [r for r in recs if r["proto"] != "wap"]
+            continue
+        parts.append((key[0],) + file_part(fi, key, recs))
+    bundles = []
+    bundle_recs = []
+    for cfgname in ("default", "full"):
+        cur = None
+        for c, defs, weight, groups in sorted([p for p in parts if p[0] == cfgname], key=lambda p: -p[2]):
+            if cur is None or cur["w"] + weight > 70000:
+                cur = {"w": 0, "defs": [], "groups": {"doc": [], "wapt": [], "wapr": []}}
+                bundles.append((cfgname, cur))
+            cur["w"] += weight
+            cur["defs"].append(defs)
+            for g in groups:
+                cur["groups"][g] += groups[g]
+    jobs_k = []
+    for bi, (cfgname, cur) in enumerate(bundles):
+        gs = [g for g in ("doc", "wapt", "wapr") if cur["groups"][g]]
+        jobs_k.append({"name": f"k_e2e_{bi}", "imports": IMPORTS, "local_modules": [f"C04T_{cfgname}"],
+                       "pre": "".join(cur["defs"]), "evals": [(CHK[g], [c for c, _ in cur["groups"][g]]) for g in gs]})
+        bundle_recs.append([[r for _, r in cur["groups"][g]] for g in gs] + [gs])
+    bigpre = coq_def("blk", blk) + "Definition d_big : list N := big_doc blk %d %d.\n" % (BIG_REPS, BIG_TAIL)
+    for i, r in enumerate(bigrecs):
+        out = gen.mask_times(r["out"])
+        v = zlib.adler32(out)
+        bp = BPROTO[r["proto"]]
+        case = f"((({bp}, HFile), {coq_str(r['sel'])}), (d_big, ({len(out)}, ({v & 0xffff}, {v >> 16}))))"
+        jobs_k.append({"name": f"k_big_{i}", "imports": IMPORTS, "local_modules": [f"C04T_{r['cfg']}"], "pre": bigpre,
+                       "evals": [(CHK["dig"], [case])]})
+        bundle_recs.append([[r], ["dig"]])
+    kres = coqmulti.run_bundles("C04", jobs_k) if not kerrs else []
     tick("k-end-to-end")
-    kbad, kerrs, nsh = [], [], 0
-    for bad, errs, ns in outs:
-        kbad += bad
-        kerrs += errs
-        nsh += ns
+    kbad = []
+    redo = []
+    for job, recs_g, (mms, err) in zip(jobs_k, bundle_recs, kres):
+        gs = recs_g[-1]
+        if err:
+            kerrs.append(err)
+            continue
+        for g, recs, mm, (chkx, cases) in zip(gs, recs_g[:-1], mms, job["evals"]):
+            if g == "doc" and mm:
+                redo.append((job, [cases[i] for i in mm], [recs[i] for i in mm]))
+            else:
+                kbad += [(recs[i], "other") for i in mm]
+    # mismatching document cases: is it exactly the pinned size attribute of a transforming handler?
+    if redo:
+        jobs2 = [{"name": job["name"] + "_pinned", "imports": IMPORTS, "local_modules": job["local_modules"],
+                  "pre": job["pre"], "evals": [(CHK["docp"], cases)]} for job, cases, _ in redo]
+        for (job, cases, recs), (mms, err) in zip(redo, coqmulti.run_bundles("C04", jobs2)):
+            if err:
+                kerrs.append(err)
+            still = set(mms[0])
+            for j, rr in enumerate(recs):
+                kbad.append((rr, "other" if j in still else "pinned-size"))
+    nsh = len(jobs_k) + len(redo)
     cov["correspondence"].update({"end_to_end_cases": len(records), "end_to_end_shards": nsh,
                                   "end_to_end_mismatches": len(kbad),
                                   "pinned_size_attribute_matches": sum(1 for _, why in kbad if why == "pinned-size")})
